@@ -606,6 +606,24 @@ def c09_simpl(R):
     path = "claripy/frontend/constrained_frontend.py"
     m = tree.mod(path)
     fn = tree.func(path, "ConstrainedFrontend.simplify")
+    # locals are identified by role and renamed to the names the checks below use
+    roles = {}
+    lcs = [st for st in fn.body if isinstance(st, ast.Assign) and isinstance(st.value, ast.ListComp) and isinstance(st.targets[0], ast.Name)]
+    scalls = [c for c in _calls(fn) if dotted(c.func) == "simplify"]
+    if len(scalls) == 1:
+        fed = {x.id for x in ast.walk(scalls[0]) if isinstance(x, ast.Name)}
+        for st in lcs:
+            roles[st.targets[0].id] = "to_simplify" if st.targets[0].id in fed else "no_simplify"
+        for st in fn.body:
+            if isinstance(st, ast.Assign) and isinstance(st.targets[0], ast.Name) and st.value is scalls[0]:
+                roles[st.targets[0].id] = "simplified"
+        for st in fn.body:
+            if isinstance(st, ast.Assign) and isinstance(st.targets[0], ast.Name) and isinstance(st.value, ast.IfExp) and any(
+                isinstance(x, ast.Name) and roles.get(x.id) == "simplified" for x in ast.walk(st.value)
+            ):
+                roles[st.targets[0].id] = "simplified_split"
+    if len(set(roles.values())) == len(roles):
+        fn = util.rename_locals(fn, roles)
     comps = {}
     for st in fn.body:
         if isinstance(st, ast.Assign) and isinstance(st.value, ast.ListComp) and isinstance(st.targets[0], ast.Name):
@@ -773,7 +791,9 @@ def c10_polarity(R):
     mh = tree.mod("claripy/frontend/mixin/concrete_handler_mixin.py")
     for name, want in (("is_true", "c"), ("is_false", "not c")):
         fn = tree.func(mh.path, f"ConcreteHandlerMixin.{name}")
-        rets = [ast.unparse(r) for r in _ret_expr(fn)]
+        Fm = util.Frags(fn)
+        Fm.has("c = self._concrete_value(e)")
+        rets = [Fm.canon(r) for r in _ret_expr(fn)]
         R.check(rets and rets[0] == want, mh, fn, f"ConcreteHandlerMixin.{name}: concrete value -> {want}",
                 f"ConcreteHandlerMixin.{name} answers `{rets[0] if rets else None}` for a concrete value")
     mbc = tree.mod("claripy/algorithm/bool_check.py")
